@@ -197,17 +197,17 @@ impl Check for LocalCplx {
         "local-accuracy-complex"
     }
     fn rule(&self) -> String {
-        "6 adaptive solvers x complex linear problems y' = lam y (lam real, imaginary, complex; 1 and 2 components) x initial phase {45, 10, 135 degrees} x amplitude {1, 60} x tolerance, maximum step at the property's cap; every consecutive pair judged against y e^(lam h) in the modulus; signature = (solver, tolerance, share of cap-limited steps class, end kind)".into()
+        "6 adaptive solvers x complex linear problems y' = lam y (lam real, imaginary, complex; 1 and 2 components) x initial phase {45, 10, 135, 90 (purely imaginary), 0 (purely real) degrees} x amplitude {1, 60} x tolerance, maximum step at the property's cap; every consecutive pair judged against y e^(lam h) in the modulus; signature = (solver, tolerance, share of cap-limited steps class, end kind)".into()
     }
     fn axes(&self, t: Tier) -> Value {
-        json!({"lam": [[1.0, 0.0], [0.0, 1.5], [-0.4, 2.0]], "lam2": [null, [-2.0, 0.0]], "phase_deg": [45.0, 10.0, 135.0], "amp": [1.0, 60.0], "tol": t.pick(vec![1e-4, 1e-7], vec![1e-3, 1e-5, 1e-7, 1e-9])})
+        json!({"lam": [[1.0, 0.0], [0.0, 1.5], [-0.4, 2.0]], "lam2": [null, [-2.0, 0.0]], "phase_deg": [45.0, 10.0, 135.0, 90.0, 0.0], "amp": [1.0, 60.0], "tol": t.pick(vec![1e-4, 1e-7], vec![1e-3, 1e-5, 1e-7, 1e-9])})
     }
     fn points(&self, t: Tier) -> Vec<LocalCplxPt> {
         let mut v = vec![];
         for &solver in &ADAPTIVE {
             for &lam in &[(1.0, 0.0), (0.0, 1.5), (-0.4, 2.0)] {
                 for &lam2 in &[None, Some((-2.0, 0.0))] {
-                    for &phase_deg in &[45.0, 10.0, 135.0] {
+                    for &phase_deg in &[45.0, 10.0, 135.0, 90.0, 0.0] {
                         for &amp in &[1.0, 60.0] {
                             for &tol in &t.pick(vec![1e-4, 1e-7], vec![1e-3, 1e-5, 1e-7, 1e-9]) {
                                 if t == Tier::Quick && lam2.is_some() && phase_deg != 45.0 {
@@ -531,7 +531,7 @@ pub struct CplxPt {
     /// 0: y' = i w y (w = 1.5); 1: y' = (a + i b) y (a = -0.4, b = 2)
     pub which: usize,
     pub tol: f64,
-    /// initial state: 0: 0.8 - 0.3i, 1: (1 + i)/sqrt 2 (error vector at 45 degrees), 2: i, 3: -40 + 40i
+    /// initial state: 0: 0.8 - 0.3i, 1: (1 + i)/sqrt 2 (error vector at 45 degrees), 2: i, 3: -40 + 40i, 4: 40i
     #[serde(default)]
     pub z0: usize,
 }
@@ -542,14 +542,14 @@ impl Check for ComplexTwin {
         "complex-vs-real-twin"
     }
     fn rule(&self) -> String {
-        "complex problems y' = i w y, y' = (a+ib) y, y' = y and y' = -y x 4 initial states (generic, 45 degrees, purely imaginary, amplitude 57) x 7 solvers x tolerances (Euler: steps), each solved as a complex scalar and as the equivalent real 2x2 system; both must satisfy the global bound and the complex error may not exceed 4x the real one; signature = (solver, problem, tolerance)".into()
+        "complex problems y' = i w y, y' = (a+ib) y, y' = y and y' = -y x 5 initial states (generic, 45 degrees, purely imaginary, amplitude 57, purely imaginary of amplitude 40) x 7 solvers x tolerances (Euler: steps), each solved as a complex scalar and as the equivalent real 2x2 system; both must satisfy the global bound and the complex error may not exceed 4x the real one; signature = (solver, problem, tolerance)".into()
     }
     fn points(&self, t: Tier) -> Vec<CplxPt> {
         let mut v = vec![];
         for &solver in &ALL_SOLVERS {
             for which in 0..4 {
                 for &tol in &t.pick(vec![1e-4, 1e-8], vec![1e-3, 1e-5, 1e-7, 1e-9]) {
-                    for z0 in 0..4 {
+                    for z0 in 0..5 {
                         if which >= 2 && z0 == 0 {
                             continue;
                         }
@@ -572,7 +572,7 @@ impl Check for ComplexTwin {
             let dtmax = step_cap(p.solver, p.tol, l);
             Cfg { tol: p.tol, dtmin: 1e-7 * dtmax, dtmax, t0, t1 }
         };
-        let z0 = [C64::new(0.8, -0.3), C64::from_polar(1.0, std::f64::consts::FRAC_PI_4), C64::new(0.0, 1.0), C64::new(-40.0, 40.0)][p.z0];
+        let z0 = [C64::new(0.8, -0.3), C64::from_polar(1.0, std::f64::consts::FRAC_PI_4), C64::new(0.0, 1.0), C64::new(-40.0, 40.0), C64::new(0.0, 40.0)][p.z0];
         let amp = z0.norm() * (lam.re.max(0.0) * (t1 - t0)).exp();
         let cfg = if p.solver == Solver::Euler { cfg } else { let d = cfg.dtmax.min(unseen_cap(p.solver, p.tol, l, amp)); Cfg { dtmax: d, dtmin: 1e-7 * d, ..cfg } };
         let lim = Limits { max_calls: 60_000_000, max_items: 4_000_000, extra_next: 0 };
